@@ -1,8 +1,10 @@
 /-
 What a printed-and-re-read search FINDS: the selector terms of `Model/PrintSearch.lean` as searches of the
 shared model `Model/Search.lean` (E4: `find` / `find_direct` of `language/search.py`, tied to /repo by the
-C07 correspondence), so that `normSel` — what reading the printed form back yields — can be compared with
-the original on a tree.
+C07 correspondence), and the theorem that the normal form `normSel s` — what reading the printed form of
+`s` back yields — finds what `s` finds: the same containers with the same trees in the same order, and
+it raises exactly when `s` raises (`sem`: the result with the identity of the exception forgotten — a
+search over several base trees may meet another tree's exception first after re-association).
 -/
 import Model.Search
 import Model.PrintSearch
@@ -21,10 +23,222 @@ def toSearch : Sel → Search
   | .item b sl => .item (toSearch b) (sl.map toSlc)
   | .sel b ps => .sel (toSearch b) (ps.map toPair)
 
+def topSearch : Top → Search
+  | .plain s => toSearch s
+  | .star s => .star (toSearch s)
+  | .lenBar s => .len (toSearch s)
+  | .lenStar s => .len (.star (toSearch s))
+
 /-- the leaves below each found tree, in the order found (`none`: the search raises) -/
 def foundLeaves (s : Sel) (t : Tree) : Option (List (List Leaf)) :=
   match (toSearch s).find t [] with
   | .ok cs => some ((allTrees cs).map Tree.leaves)
   | .error _ => none
+
+/-! ### results with the identity of the exception forgotten -/
+
+def okOf {ε α : Type} : Except ε α → Option α
+  | .ok a => some a
+  | .error _ => none
+
+/-- what `find` (`direct = false`) / `find_direct` (`direct = true`) of the search returns; `none`: raises -/
+def sem (direct : Bool) (s : Search) (t : Tree) (σ : Scope) : Option (List Cont) :=
+  okOf (Search.findG direct s t σ)
+
+/-- `extend` over a list, failing when any element fails -/
+def oFlat {α β : Type} (f : α → Option (List β)) : List α → Option (List β)
+  | [] => some []
+  | x :: xs =>
+    match f x, oFlat f xs with
+    | some a, some b => some (a ++ b)
+    | _, _ => none
+
+theorem okOf_flatMapE {α β ε : Type} (f : α → Except ε (List β)) : ∀ l : List α,
+    okOf (flatMapE f l) = oFlat (fun x => okOf (f x)) l
+  | [] => rfl
+  | x :: xs => by
+    have ih := okOf_flatMapE f xs
+    simp only [flatMapE, oFlat]
+    cases hx : f x with
+    | error e => simp [okOf]
+    | ok ys =>
+      cases hr : flatMapE f xs with
+      | error e => rw [hr] at ih; simp [okOf] at ih ⊢; rw [← ih]
+      | ok zs => rw [hr] at ih; simp [okOf] at ih ⊢; rw [← ih]
+
+theorem oFlat_append {α β : Type} (f : α → Option (List β)) : ∀ a b : List α,
+    oFlat f (a ++ b) = (match oFlat f a, oFlat f b with
+      | some x, some y => some (x ++ y)
+      | _, _ => none)
+  | [], b => by cases h : oFlat f b <;> simp [oFlat, h]
+  | x :: a, b => by
+    simp only [List.cons_append, oFlat, oFlat_append f a b]
+    cases f x <;> cases oFlat f a <;> cases oFlat f b <;> simp
+
+/-- one stage of a search: over every tree found so far -/
+def thenO (x : Option (List Cont)) (g : Tree → Option (List Cont)) : Option (List Cont) :=
+  x.bind (fun cs => oFlat g (allTrees cs))
+
+theorem allTrees_append (a b : List Cont) : allTrees (a ++ b) = allTrees a ++ allTrees b := by
+  simp [allTrees]
+
+theorem thenO_assoc (x : Option (List Cont)) (f g : Tree → Option (List Cont)) :
+    thenO (thenO x f) g = thenO x (fun u => thenO (f u) g) := by
+  cases x with
+  | none => rfl
+  | some cs =>
+    simp only [thenO, Option.bind]
+    generalize allTrees cs = l
+    induction l with
+    | nil => rfl
+    | cons u us ih =>
+      simp only [oFlat]
+      cases hu : f u with
+      | none => rfl
+      | some a =>
+        cases hr : oFlat f us with
+        | none =>
+          rw [hr] at ih
+          simp only [] at ih ⊢
+          rw [← ih]
+          cases oFlat g (allTrees a) <;> rfl
+        | some b =>
+          rw [hr] at ih
+          simp only [] at ih ⊢
+          rw [← ih, allTrees_append, oFlat_append]
+
+theorem sem_attr (d : Bool) (b a : Search) (t : Tree) (σ : Scope) :
+    sem d (.attr b a) t σ = thenO (sem d b t σ) (fun u => sem true a u σ) := by
+  simp only [sem, Search.findG]
+  cases h : Search.findG d b t σ with
+  | error e => rfl
+  | ok bs =>
+    show okOf (flatMapE (fun u => Search.findG true a u σ) (allTrees bs)) = _
+    rw [okOf_flatMapE]; rfl
+
+theorem sem_desc (d : Bool) (b a : Search) (t : Tree) (σ : Scope) :
+    sem d (.desc b a) t σ = thenO (sem d b t σ) (fun u => sem false a u σ) := by
+  simp only [sem, Search.findG]
+  cases h : Search.findG d b t σ with
+  | error e => rfl
+  | ok bs =>
+    show okOf (flatMapE (fun u => Search.findG false a u σ) (allTrees bs)) = _
+    rw [okOf_flatMapE]; rfl
+
+/-- `[…]` / `{…}` / `*` / `|…|` use their base only through what it finds -/
+theorem sem_item_congr (d : Bool) (b b' : Search) (sl : List Slc) (t : Tree) (σ : Scope)
+    (h : Search.findG d b t σ = Search.findG d b' t σ ∨ sem d b t σ = sem d b' t σ) :
+    sem d (.item b sl) t σ = sem d (.item b' sl) t σ := by
+  have h' : sem d b t σ = sem d b' t σ := by
+    cases h with
+    | inl h => simp [sem, h]
+    | inr h => exact h
+  simp only [sem, Search.findG] at h' ⊢
+  cases h1 : Search.findG d b t σ <;> cases h2 : Search.findG d b' t σ <;> simp_all [okOf]
+
+theorem sem_sel_congr (d : Bool) (b b' : Search) (ps : List SelPair) (t : Tree) (σ : Scope)
+    (h' : sem d b t σ = sem d b' t σ) : sem d (.sel b ps) t σ = sem d (.sel b' ps) t σ := by
+  simp only [sem, Search.findG] at h' ⊢
+  cases h1 : Search.findG d b t σ <;> cases h2 : Search.findG d b' t σ <;> simp_all [okOf]
+
+theorem sem_star_congr (d : Bool) (b b' : Search) (t : Tree) (σ : Scope)
+    (h' : sem d b t σ = sem d b' t σ) : sem d (.star b) t σ = sem d (.star b') t σ := by
+  simp only [sem, Search.findG] at h' ⊢
+  cases h1 : Search.findG d b t σ <;> cases h2 : Search.findG d b' t σ <;> simp_all [okOf]
+
+theorem sem_len_congr (d : Bool) (b b' : Search) (t : Tree) (σ : Scope)
+    (h' : sem d b t σ = sem d b' t σ) : sem d (.len b) t σ = sem d (.len b') t σ := by
+  simp only [sem, Search.findG] at h' ⊢
+  cases h1 : Search.findG d b t σ <;> cases h2 : Search.findG d b' t σ <;> simp_all [okOf]
+
+/-! ### the normal form finds the same -/
+
+/-- the two searches find the same, whatever the tree, the scope and the mode -/
+def Eqv (s s' : Sel) : Prop :=
+  ∀ (d : Bool) (t : Tree) (σ : Scope), sem d (toSearch s) t σ = sem d (toSearch s') t σ
+
+theorem Eqv.rfl' (s : Sel) : Eqv s s := fun _ _ _ => rfl
+theorem Eqv.trans' {a b c : Sel} (h1 : Eqv a b) (h2 : Eqv b c) : Eqv a c :=
+  fun d t σ => (h1 d t σ).trans (h2 d t σ)
+
+theorem eqv_attr {b b' a a' : Sel} (hb : Eqv b b') (ha : Eqv a a') : Eqv (.attr b a) (.attr b' a') := by
+  intro d t σ
+  simp only [toSearch, sem_attr, hb d t σ]
+  congr 1; funext u; exact ha true u σ
+
+theorem eqv_desc {b b' a a' : Sel} (hb : Eqv b b') (ha : Eqv a a') : Eqv (.desc b a) (.desc b' a') := by
+  intro d t σ
+  simp only [toSearch, sem_desc, hb d t σ]
+  congr 1; funext u; exact ha false u σ
+
+theorem eqv_item {b b' : Sel} (sl : List Slice) (hb : Eqv b b') : Eqv (.item b sl) (.item b' sl) :=
+  fun d t σ => sem_item_congr d _ _ _ t σ (Or.inr (hb d t σ))
+
+theorem eqv_sel {b b' : Sel} (ps : List Pair) (hb : Eqv b b') : Eqv (.sel b ps) (.sel b' ps) :=
+  fun d t σ => sem_sel_congr d _ _ _ t σ (hb d t σ)
+
+theorem eqv_comb {s s' : Sel} (left : Option (Sel × Bool)) (h : Eqv s s') : Eqv (comb left s) (comb left s') := by
+  match left with
+  | none => exact h
+  | some (l, false) => exact eqv_attr (Eqv.rfl' l) h
+  | some (l, true) => exact eqv_desc (Eqv.rfl' l) h
+
+/-- `.` and `..` are associative: `(l ∘ b) ∘ a` finds what `l ∘ (b ∘ a)` finds -/
+theorem eqv_assoc_attr (left : Option (Sel × Bool)) (b a : Sel) :
+    Eqv (.attr (comb left b) a) (comb left (.attr b a)) := by
+  match left with
+  | none => exact Eqv.rfl' _
+  | some (l, false) =>
+    intro d t σ
+    simp only [comb, toSearch, sem_attr, thenO_assoc]
+  | some (l, true) =>
+    intro d t σ
+    simp only [comb, toSearch, sem_attr, sem_desc, thenO_assoc]
+
+theorem eqv_assoc_desc (left : Option (Sel × Bool)) (b a : Sel) :
+    Eqv (.desc (comb left b) a) (comb left (.desc b a)) := by
+  match left with
+  | none => exact Eqv.rfl' _
+  | some (l, false) =>
+    intro d t σ
+    simp only [comb, toSearch, sem_attr, sem_desc, thenO_assoc]
+  | some (l, true) =>
+    intro d t σ
+    simp only [comb, toSearch, sem_desc, thenO_assoc]
+
+/-- what has been read behind `left` finds what `left` followed by the search finds -/
+theorem eqv_feed : ∀ (s : Sel) (left : Option (Sel × Bool)),
+    Eqv (comb (feed s left).1 (feed s left).2.1) (comb left s)
+  | .rule _, _ => Eqv.rfl' _
+  | .attr b a, left => by
+    simp only [feed]
+    refine Eqv.trans' (eqv_feed a _) ?_
+    simp only [comb]
+    exact Eqv.trans' (eqv_attr (eqv_feed b left) (Eqv.rfl' a)) (eqv_assoc_attr left b a)
+  | .desc b a, left => by
+    simp only [feed]
+    refine Eqv.trans' (eqv_feed a _) ?_
+    simp only [comb]
+    exact Eqv.trans' (eqv_desc (eqv_feed b left) (Eqv.rfl' a)) (eqv_assoc_desc left b a)
+  | .item b sl, left => by
+    simp only [feed]
+    exact eqv_comb left (eqv_item sl (eqv_feed b none))
+  | .sel b ps, left => by
+    simp only [feed]
+    exact eqv_comb left (eqv_sel ps (eqv_feed b none))
+
+/-- **the normal form finds what the search finds** -/
+theorem eqv_normSel (s : Sel) : Eqv (normSel s) s := eqv_feed s none
+
+theorem sem_normTop (t : Top) (d : Bool) (tr : Tree) (σ : Scope) :
+    sem d (topSearch (normTop t)) tr σ = sem d (topSearch t) tr σ := by
+  cases t with
+  | plain s => exact eqv_normSel s d tr σ
+  | star s => exact sem_star_congr d _ _ tr σ (eqv_normSel s d tr σ)
+  | lenBar s => exact sem_len_congr d _ _ tr σ (eqv_normSel s d tr σ)
+  | lenStar s =>
+    refine sem_len_congr d _ _ tr σ ?_
+    -- the star search inside is evaluated in the same mode
+    exact sem_star_congr d _ _ tr σ (eqv_normSel s d tr σ)
 
 end FV.PS
